@@ -55,6 +55,7 @@ func c18Progs() []c18Prog {
 		{"bytes-through", "echo hi | each {|x| echo $x }", []string{res("ok", "[]", "hi\n")}, 0},
 		// redirections applied to the pipe ends of a stage
 		{"writer-dups-stderr-over-piped-stdout", "echo to-stderr >&2 | each {|x| put got-$x }; put after", []string{res("ok", "[after]", "")}, 0},
+		{"writer-dups-piped-stdout-onto-itself", "put a >&1 | each {|x| put got-$x }; put after", []string{res("ok", "[got-a after]", "")}, 0},
 		{"writer-closes-piped-stdout", "put a >&- | each {|x| put got-$x }; put after", []string{res("ok", "[after]", ""), res("exc:port does not support value output", "[after]", ""), res("pipeline[exc:port does not support value output]", "[after]", ""), res("exc:port does not support value output", "[]", ""), res("pipeline[exc:port does not support value output]", "[]", "")}, 0},
 		{"reader-closes-piped-stdin", "put a b | each {|x| put got-$x } <&-; put after", []string{res("ok", "[after]", "")}, 0},
 		// byte lines around the buffer sizes of the reading side (bufio 4096) and beyond the capacity of the OS pipe
@@ -103,7 +104,7 @@ func TestVerifC18(t *testing.T) {
 		return
 	}
 	vk.Run(t, "C18", "exploration", func(c *vk.Ctx) {
-		c.Rule("every schedule of the real Evaler running each of 24 pipeline programs (values, byte lines, both bands, more values than the 32-slot channel, early-exiting readers, failing stages, fd redirections applied to the pipe ends of a stage, byte lines of 4095..140000 bytes, i.e. around the reader's buffer sizes and beyond the OS pipe capacity), at synchronisation granularity (channel ops, select, mutex, waitgroup, atomics, pipe reads), with at most `bound` departures from the default goroutine (delay bounding; bound 2, 1 for the three long programs); class = distinct (program, observation log)")
+		c.Rule("every schedule of the real Evaler running each of 25 pipeline programs (values, byte lines, both bands, more values than the 32-slot channel, early-exiting readers, failing stages, fd redirections applied to the pipe ends of a stage, byte lines of 4095..140000 bytes, i.e. around the reader's buffer sizes and beyond the OS pipe capacity), at synchronisation granularity (channel ops, select, mutex, waitgroup, atomics, pipe reads), with at most `bound` departures from the default goroutine (delay bounding; bound 2, 1 for the three long programs); class = distinct (program, observation log)")
 		c.Assume("pkg/eval and pkg/eval/vars are rewritten so that their synchronisation goes through the controlled scheduler; x/sync/semaphore is compiled from its real source the same way",
 			"memory-model effects below synchronisation granularity and schedules beyond the bound are not explored",
 			"pipe reads are gated by poll(2); pipe writes of the byte-output port are split into chunks of <=4096 bytes, each a scheduling point gated by poll(2) POLLOUT, so a writer facing a full pipe yields to the reader")
